@@ -76,6 +76,7 @@ class Env:
         self.chof = {}             # local id of a char -> local id of its char_indices position
         self.suffix = {}           # place -> set of proven suffix byte lengths (boundaries from the end)
         self.lastof = {}           # local id of a char -> place whose last char it is
+        self.taken = set()         # (base place, range text): this very slice was taken before on this path
 
     def copy(self):
         e = Env({k: v.copy() for k, v in self.f.items()}, dict(self.pos),
@@ -84,6 +85,7 @@ class Env:
         e.chof = dict(self.chof)
         e.suffix = {k: set(v) for k, v in self.suffix.items()}
         e.lastof = dict(self.lastof)
+        e.taken = set(self.taken)
         return e
 
     def get(self, p):
@@ -117,9 +119,12 @@ class Env:
         e.chof = {k: v for k, v in self.chof.items() if o.chof.get(k) == v}
         e.suffix = {k: v & o.suffix[k] for k, v in self.suffix.items() if k in o.suffix}
         e.lastof = {k: v for k, v in self.lastof.items() if o.lastof.get(k) == v}
+        e.taken = self.taken & o.taken
         return e
 
     def forget(self, p):
+        self.taken = {t for t in self.taken if p not in t[1] and t[0] != p and not t[0].startswith(p + ".")
+                      and not t[0].startswith(p + "[")}
         for k in list(self.f):
             if k.startswith(p + "["):
                 del self.f[k]
@@ -343,6 +348,18 @@ class Interp:
                 if isinstance(v, str) and v and all(ord(ch) < 128 for ch in v):
                     env.upd(rp, minlen=len(v))
                     env.prefix.setdefault(rp, set()).add(len(v))
+            elif m in ("starts_with",) and pol and not rp:
+                # `s[a..].starts_with("L")` (a constant): the tail from a begins with the ASCII text L, so a + len(L) is
+                # a boundary inside s
+                rv = peel(c.get("recv"))
+                v = lit_val(peel((c.get("args") or [None])[0]))
+                if isinstance(rv, dict) and rv.get("k") == "index" and is_str_ty(rv.get("bt")) and \
+                        isinstance(v, str) and v and all(ord(ch) < 128 for ch in v):
+                    base = place_str(rv.get("e"))
+                    a_, b_ = self.range_consts(rv.get("i"), env)
+                    if base and isinstance(a_, int) and not isinstance(a_, bool) and b_ == "end":
+                        env.upd(base, minlen=a_ + len(v))
+                        env.prefix.setdefault(base, set()).add(a_ + len(v))
             elif m == "all" and pol:
                 base = self.chars_base(c.get("recv"))
                 cl = (c.get("args") or [None])[0]
@@ -395,6 +412,7 @@ class Interp:
             if n.get("k") == "index" and is_str_ty(n.get("bt")):
                 base = place_str(n.get("e"))
                 if base:
+                    env.taken.add((base, expr_text(n.get("i"))))
                     a, b_ = self.range_consts(n.get("i"), env)
                     for v_ in (a, b_):
                         if isinstance(v_, int) and not isinstance(v_, bool) and v_ > 0:
@@ -1029,6 +1047,9 @@ class Interp:
                 env.prefix.pop(p, None)
             l = peel(n["l"])
             if isinstance(l, dict) and l.get("k") == "local":
+                nm_ = l.get("name") or ""
+                env.taken = {t for t in env.taken if nm_ not in t[1] and t[0] != nm_ and not t[0].startswith(nm_ + ".")
+                             and not t[0].startswith(nm_ + "[")}
                 ps = self.pos_of(n["r"], env)
                 if ps and ps[0] != "*":
                     env.pos[l["id"]] = ps
@@ -1040,6 +1061,8 @@ class Interp:
             l = peel(n["l"])
             if isinstance(l, dict) and l.get("k") == "local":
                 env.pos.pop(l["id"], None)
+                nm_ = l.get("name") or ""
+                env.taken = {t for t in env.taken if nm_ not in t[1] and t[0] != nm_}
             return env
         if k == "ret":
             if n.get("e") is not None:
@@ -1260,6 +1283,8 @@ class Interp:
             # a start bound proven as prefix length implies the length
             if not (base and need in env.prefix.get(base, set())):
                 problems.append("bounds:len>=%d" % need)
+        if problems and base and (base, expr_text(i)) in env.taken:
+            problems = []       # the very same slice of the same unchanged text was taken before on this path
         verdict = "safe" if not problems else "finding"
         if problems and all(p.startswith("boundary:") for p in problems):
             # a bound whose value comes out of a construct the interpreter has no transfer function for (a value
@@ -1271,6 +1296,8 @@ class Interp:
         self.ledger.append(Site("P2", self.b, n, text, verdict, ";".join(problems)))
         # whatever the verdict here: execution continues past this slice only if its constant bounds were char
         # boundaries inside the text, so later slices of the same (unchanged) text at those offsets are proven
+        if base:
+            env.taken.add((base, expr_text(i)))
         if base and (isinstance(a, int) or isinstance(b_, int)):
             for v_ in (a, b_):
                 if isinstance(v_, int) and not isinstance(v_, bool) and v_ > 0:
